@@ -1,6 +1,7 @@
 import Ovldverif.Model.Json
 import Ovldverif.Model.JsonD
 import Ovldverif.Model.JsonF
+import Ovldverif.Model.JsonE
 import Ovldverif.Spec.Types
 import Ovldverif.Spec.Resolve
 /-! Line-protocol driver: one JSON scenario per input line, one JSON result per output line. -/
@@ -130,6 +131,23 @@ def runF (j : Json) : Except String Json := do
     else throw s!"bad op {kind}"
   return Json.mkObj [("ops", Json.arr out)]
 
+def runE (j : Json) : Except String Json := do
+  let W ← dworldOfJson j
+  let slots ← (← jArr (← jField j "slots")).toList.mapM (fun x => do slotOfJson (← jArr x))
+  let hs ← (← jArr (← jField j "handlers")).toList.mapM dhandlerOfJson
+  let calls ← (← jArr (← jField j "calls")).toList.mapM (fun c => do (← jArr c).toList.mapM slotValOfJson)
+  let strat := match strategy W slots hs with
+    | .keyed _ _ => "keyed"
+    | .firstMatch => "first"
+    | .counting => "counting"
+  let res := calls.map (fun args => dresToJson (dispatch W slots hs args))
+  -- per handler and call: the generated check of every dependent slot vs isinstance of the declared type
+  let checks := calls.map (fun args => hs.map (fun h =>
+    String.join (slots.map (fun s => match argAt args s with
+      | some v => triToStr (genCheck W (dTyAt h s) v) ++ triToStr (isinstanceOf W (dTyAt h s) v)
+      | none => "??"))))
+  return Json.mkObj [("strategy", Json.str strat), ("res", Json.arr res.toArray), ("checks", toJson checks)]
+
 def runLine (line : String) : String :=
   match Json.parse line with
   | .error e => (Json.mkObj [("error", Json.str s!"parse: {e}")]).compress
@@ -140,6 +158,7 @@ def runLine (line : String) : String :=
       | "A" => runA j
       | "D" => runD j
       | "F" => runF j
+      | "E" => runE j
       | _ => throw s!"unknown layer {layer}"
     match r with
     | .ok v => v.compress
